@@ -732,3 +732,59 @@ mut('C01', 'destination-recreated', QUEUE,
 mut('C01', 'pr-cascade-not-validated', GWF,
     "    build_branch_cascade(job)\n    job.git.cascade.validate()\n\n    check_branch_compatibility(job)",
     "    build_branch_cascade(job)\n\n    check_branch_compatibility(job)")
+
+# ------------------------------------------------------------------- C18
+mut('C18', 'hotfix-dollar-dropped', BRANCHES,
+    "              r'\\.(?P<micro>\\d+))$'\n    cascade_producer = False",
+    "              r'\\.(?P<micro>\\d+))'\n    cascade_producer = False")
+eq(['C18'], 'dev-caret-dropped-under-re-match', BRANCHES,
+    "pattern = r'^development/(?P<version>(?P<major>\\d+)(\\.(?P<minor>\\d+))?)$'",
+    "pattern = r'development/(?P<version>(?P<major>\\d+)(\\.(?P<minor>\\d+))?)$'")
+mut('C18', 'version-any', BRANCHES,
+    "    pattern = r'^release/' \\\n              r'(?P<version>(?P<major>\\d+)\\.(?P<minor>\\d+))$'",
+    "    pattern = r'^release/' \\\n              r'(?P<version>(?P<major>\\d+)\\.(?P<minor>.+))$'")
+mut('C18', 'new-prefix-user', BRANCHES,
+    "                    'documentation', 'design', 'dependabot', 'epic',\n                    'bug')",
+    "                    'documentation', 'design', 'dependabot', 'epic',\n                    'bug', 'user')")
+mut('C18', 'new-prefix-q', BRANCHES,
+    "                    'documentation', 'design', 'dependabot', 'epic',\n                    'bug')",
+    "                    'documentation', 'design', 'dependabot', 'epic',\n                    'bug', 'q')")
+mut('C18', 'slice-2', BRANCHES,
+    "pattern = r'^q/w/(?P<pr_id>\\d+)/' + IntegrationBranch.pattern[3:]",
+    "pattern = r'^q/w/(?P<pr_id>\\d+)/' + IntegrationBranch.pattern[2:]")
+mut('C18', 'legacy-before-hotfix', BRANCHES,
+    "                FeatureBranch, HotfixBranch, LegacyHotfixBranch,",
+    "                FeatureBranch, LegacyHotfixBranch, HotfixBranch,")
+mut('C18', 'integration-before-queue', BRANCHES,
+    "    for cls in [StabilizationBranch, DevelopmentBranch, ReleaseBranch,\n                QueueBranch, QueueIntegrationBranch,\n                FeatureBranch, HotfixBranch, LegacyHotfixBranch,\n                IntegrationBranch, UserBranch]:",
+    "    for cls in [StabilizationBranch, DevelopmentBranch, ReleaseBranch,\n                QueueBranch, QueueIntegrationBranch,\n                FeatureBranch, HotfixBranch, LegacyHotfixBranch,\n                UserBranch]:")
+mut('C18', 'w-args-swapped', INTEG,
+    "        name = \"w/{}/{}\".format(dst.version, src)\n        branch = branch_factory(job.git.repo, name)\n        branch.src_branch, branch.dst_branch = src, dst\n        if not branch.exists():",
+    "        name = \"w/{}/{}\".format(src, dst.version)\n        branch = branch_factory(job.git.repo, name)\n        branch.src_branch, branch.dst_branch = src, dst\n        if not branch.exists():")
+mut('C18', 'qint-loses-hfrev', BRANCHES,
+    "    pattern = r'^w/(?P<version>(?P<major>\\d+)(\\.(?P<minor>\\d+))?' \\\n              r'(\\.(?P<micro>\\d+)(\\.(?P<hfrev>\\d+))?)?)/' + \\",
+    "    pattern = r'^w/(?P<version>(?P<major>\\d+)(\\.(?P<minor>\\d+))?' \\\n              r'(\\.(?P<micro>\\d+))?)/' + \\")
+mut('C18', 'version-with-slash', BRANCHES,
+    "    pattern = r'^q/(?P<version>(?P<major>\\d+)(\\.(?P<minor>\\d+))?' \\\n              r'(\\.(?P<micro>\\d+)(\\.(?P<hfrev>\\d+))?)?)$'",
+    "    pattern = r'^q/(?P<version>(?P<major>\\d+)([./](?P<minor>\\d+))?' \\\n              r'(\\.(?P<micro>\\d+)(\\.(?P<hfrev>\\d+))?)?)$'")
+mut('C18', 'release-destination', BRANCHES,
+    "              r'(?P<version>(?P<major>\\d+)\\.(?P<minor>\\d+))$'\n\n\nclass FeatureBranch",
+    "              r'(?P<version>(?P<major>\\d+)\\.(?P<minor>\\d+))$'\n    can_be_destination = True\n\n\nclass FeatureBranch")
+mut('C18', 'add-branch-accepts-all', BRANCHES,
+    "        if not branch.can_be_destination:\n            LOG.debug(\"Discard non destination branch: %s\", branch)\n            return\n",
+    "        if not branch.can_be_destination:\n            LOG.debug(\"Discard non destination branch: %s\", branch)\n")
+mut('C18', 'parent-lookup-name', GWF,
+    "        if isinstance(branch, IntegrationBranch):\n            return branch.feature_branch",
+    "        if isinstance(branch, IntegrationBranch):\n            return branch.label")
+mut('C18', 'qint-name-uses-dst', QUEUE,
+    "        pr_id, wbranch_version, job.pull_request.src_branch\n",
+    "        pr_id, wbranch_version, job.pull_request.dst_branch\n")
+mut('C18', 'ticket-key-anywhere', BRANCHES,
+    "    jira_issue_pattern = '(?P<jira_project>[a-zA-Z0-9_]+)-[0-9]+'",
+    "    jira_issue_pattern = '(?P<jira_project>[a-zA-Z0-9_/]+)-[0-9]+'")
+mut('C18', 'stab-two-numbers', BRANCHES,
+    "              r'(?P<version>(?P<major>\\d+)\\.(?P<minor>\\d+)\\.(?P<micro>\\d+))$'\n    allow_prefixes",
+    "              r'(?P<version>(?P<major>\\d+)\\.(?P<minor>\\d+)(\\.(?P<micro>\\d+))?)$'\n    allow_prefixes")
+mut('C18', 'queue-dest-format', BRANCHES,
+    "            dest = branch_factory(repo, 'stabilization/%s' % self.version)",
+    "            dest = branch_factory(repo, 'development/%s' % self.version)")
